@@ -191,7 +191,13 @@ def check(ctx):
                         and isinstance(x.ctx, ast.Load if nm == "__getitem__" else ast.Store):
                     rec.append(x.slice)
                 elif nm == "__contains__" and isinstance(x, ast.Compare) and len(x.ops) == 1 and isinstance(x.ops[0], ast.In) and is_remainder(x.left):
-                    rec.append(x.left)
+                    # `subkey in nested` is the same operation on the nested object; `subkey in nested._data` is a flat lookup in
+                    # its value table (a remainder that still has dots is never a key there)
+                    cont = x.comparators[0]
+                    if isinstance(cont, ast.Attribute) and cont.attr in ("_data", "_fields", "__dict__"):
+                        rec.append(ast.Constant(value="<flat lookup in %s>" % ast.unparse(cont)))
+                    else:
+                        rec.append(x.left)
             okr = bool(rec) and all(is_remainder(a) for a in rec)
             ctx.ob("walker.recurses-on-remainder", f, "%s.%s(subkey, ...)" % (cname, nm), okr,
                    "the remainder of the path is resolved by the same operation on the nested object" if okr else
